@@ -831,3 +831,226 @@ Section Nested.
     destruct (String.eqb (e_lbl e) "__name__") eqn:E; [apply String.eqb_eq in E; contradiction|]. exact Hr.
   Qed.
 End Nested.
+
+(* ------------------------------------------------------------------ configurations composed from a sequence of options *)
+
+Lemma deny_add_in : forall l x y, In x (deny_add l y) <-> In x l \/ x = y.
+Proof.
+  intros l x y. unfold deny_add. destruct (existsb (String.eqb y) l) eqn:E.
+  - split; [auto|]. intros [H|H]; [exact H|]. subst x.
+    apply existsb_exists in E. destruct E as [z [Hz Hyz]]. apply String.eqb_eq in Hyz. subst z. exact Hz.
+  - rewrite in_app_iff. simpl. split.
+    + intros [H|[H|[]]]; [left; exact H|right; symmetry; exact H].
+    + intros [H|H]; [left; exact H|right; left; symmetry; exact H].
+Qed.
+
+Lemma fold_deny_add_in : forall ys l x, In x (fold_left deny_add ys l) <-> In x l \/ In x ys.
+Proof.
+  induction ys as [|y r IH]; intros l x; simpl.
+  - split; [auto|]. intros [H|[]]. exact H.
+  - rewrite IH, deny_add_in. split.
+    + intros [[H|H]|H]; auto.
+    + intros [H|[H|H]]; auto.
+Qed.
+
+Lemma fold_opts_deny : forall opts c x,
+  In x (c_deny (fold_left apply_opt opts c)) <-> In x (c_deny c) \/ denied_by opts x.
+Proof.
+  induction opts as [|o r IH]; intros c x; simpl.
+  - split; [auto|]. intros [H|[o [[] _]]]. exact H.
+  - rewrite IH. split.
+    + intros [H|[o' [Hin Hd]]].
+      * destruct o; simpl in H; auto.
+        -- apply deny_add_in in H. destruct H as [H|H]; [auto|].
+           right. exists (OptWithout x0). split; [left; reflexivity|]. simpl. symmetry. exact H.
+        -- apply fold_deny_add_in in H. destruct H as [H|H]; [auto|].
+           right. exists (OptWithoutMany xs). split; [left; reflexivity|]. exact H.
+      * right. exists o'. split; [right; exact Hin|exact Hd].
+    + intros [H|[o' [[Heq|Hin] Hd]]].
+      * left. destruct o; simpl; auto.
+        -- apply deny_add_in. auto.
+        -- apply fold_deny_add_in. auto.
+      * subst o'. left. destruct o; simpl in Hd; try contradiction; simpl.
+        -- apply deny_add_in. right. symmetry. exact Hd.
+        -- apply fold_deny_add_in. right. exact Hd.
+      * right. exists o'. split; assumption.
+Qed.
+
+(* deny options ACCUMULATE: the deny set of the composed configuration is exactly the union of the names given to all
+   the WithoutGlobal / WithoutGlobals options of the list, whatever their order and whatever stands between them *)
+Theorem config_of_denies : forall opts x, In x (c_deny (config_of opts)) <-> denied_by opts x.
+Proof.
+  intros opts x. unfold config_of. rewrite fold_opts_deny. simpl. split; [intros [[]|H]; exact H|auto].
+Qed.
+
+Lemma over_set_in : forall l x v y u, In (y, u) (over_set l x v) -> In (y, u) l \/ (y = x /\ u = v).
+Proof.
+  intros l x v y u H. unfold over_set in H. apply in_app_iff in H. destruct H as [H|H].
+  - apply filter_In in H. left. exact (proj1 H).
+  - destruct H as [H|[]]. inversion H. right. split; reflexivity.
+Qed.
+
+Lemma fold_opts_over : forall opts c y u,
+  In (y, u) (c_over (fold_left apply_opt opts c)) -> In (y, u) (c_over c) \/ In (OptOverride y u) opts.
+Proof.
+  induction opts as [|o r IH]; intros c y u H; simpl in *; [auto|].
+  destruct (IH _ _ _ H) as [H1|H1]; [|auto].
+  destruct o; simpl in H1; auto.
+  apply over_set_in in H1. destruct H1 as [H1|[-> ->]]; auto.
+Qed.
+
+Lemma config_of_over : forall opts y u, In (y, u) (c_over (config_of opts)) -> overridden_by opts y.
+Proof.
+  intros opts y u H. unfold config_of in H. apply fold_opts_over in H. destruct H as [[]|H]. exists u. exact H.
+Qed.
+
+(* ---- a denied global stays out of the environment through all later denials and through overrides of OTHER names *)
+
+Lemma env_get_del_other : forall (e : env) x y, x <> y -> env_get (env_del e y) x = env_get e x.
+Proof.
+  induction e as [|[z m] r IH]; intros x y Hxy; [reflexivity|]. unfold env_get, env_del in *. simpl.
+  destruct (String.eqb z y) eqn:Ezy; simpl.
+  - apply String.eqb_eq in Ezy. subst z.
+    destruct (String.eqb y x) eqn:Eyx; [apply String.eqb_eq in Eyx; subst; contradiction|]. apply IH. exact Hxy.
+  - destruct (String.eqb z x); [reflexivity|]. apply IH. exact Hxy.
+Qed.
+
+Lemma env_get_del_none : forall (e : env) x y, env_get e x = None -> env_get (env_del e y) x = None.
+Proof.
+  intros e x y H. destruct (String.eqb x y) eqn:E.
+  - apply String.eqb_eq in E. subst y. apply env_get_del_same.
+  - rewrite env_get_del_other; [exact H|]. intro Heq. subst y. rewrite String.eqb_refl in E. discriminate.
+Qed.
+
+Lemma env_get_set_other : forall (e : env) x y v, x <> y -> env_get (env_set e y v) x = env_get e x.
+Proof.
+  intros e x y v Hxy. unfold env_set.
+  assert (Happ : forall a b : env, env_get (a ++ b) x = match env_get a x with Some n => Some n | None => env_get b x end).
+  { induction a as [|[z m] a IHa]; intros b; [reflexivity|]. unfold env_get in *. simpl.
+    destruct (String.eqb z x); [reflexivity|apply IHa]. }
+  rewrite Happ, env_get_del_other by exact Hxy.
+  destruct (env_get e x); [reflexivity|]. unfold env_get. simpl.
+  destruct (String.eqb y x) eqn:E; [apply String.eqb_eq in E; subst; contradiction|reflexivity].
+Qed.
+
+Lemma apply_deny_keeps_none : forall w y x, env_get (w_env w) x = None -> env_get (w_env (apply_deny w y)) x = None.
+Proof.
+  intros w y x H. unfold apply_deny. destruct (cut_dot y) as [mn [attr|]].
+  - destruct (env_get (w_env w) mn) as [m|]; [|exact H]. destruct (is_module (w_mods w) m); exact H.
+  - simpl. apply env_get_del_none. exact H.
+Qed.
+
+Lemma fold_deny_keeps_none : forall l w x, env_get (w_env w) x = None -> env_get (w_env (fold_left apply_deny l w)) x = None.
+Proof. induction l as [|y r IH]; intros w x H; simpl; [exact H|]. apply IH. apply apply_deny_keeps_none. exact H. Qed.
+
+Lemma fold_deny_removes : forall l w x, In x l -> has_dot x = false ->
+  env_get (w_env (fold_left apply_deny l w)) x = None.
+Proof.
+  induction l as [|y r IH]; intros w x Hin Hd; [destruct Hin|]. simpl. destruct Hin as [->|Hin].
+  - apply fold_deny_keeps_none. unfold apply_deny. rewrite (cut_dot_nodot x Hd). simpl. apply env_get_del_same.
+  - apply IH; assumption.
+Qed.
+
+Lemma apply_override_keeps_none : forall w y v x, y <> x ->
+  env_get (w_env w) x = None -> env_get (w_env (apply_override w (y, v))) x = None.
+Proof.
+  intros w y v x Hyx H. unfold apply_override. destruct (split_dot y) as [|a [|b r]].
+  - exact H.
+  - simpl. rewrite env_get_set_other; [exact H|]. intro E. subst. contradiction.
+  - destruct (env_get (w_env w) a) as [m|]; [|exact H]. destruct (is_module (w_mods w) m); [|exact H].
+    destruct (resolve_module _ _ _ _); exact H.
+Qed.
+
+Lemma fold_override_keeps_none : forall l w x, (forall y v, In (y, v) l -> y <> x) ->
+  env_get (w_env w) x = None -> env_get (w_env (fold_left apply_override l w)) x = None.
+Proof.
+  induction l as [|[y v] r IH]; intros w x Hl H; simpl; [exact H|]. apply IH.
+  - intros y' v' Hin. apply (Hl y' v'). right. exact Hin.
+  - apply apply_override_keeps_none; [apply (Hl y v); left; reflexivity|exact H].
+Qed.
+
+(* For EVERY configuration (any deny list of any length, any extra globals, any overrides) over any defaults: a global
+   name that is in the deny list and is not itself overridden is not in the environment - no identifier, no import
+   statement and no from-import can name it. *)
+Theorem denied_global_absent : forall d c x,
+  In x (c_deny c) -> has_dot x = false -> (forall y v, In (y, v) (c_over c) -> y <> x) ->
+  env_get (w_env (apply_config d c)) x = None.
+Proof.
+  intros d c x Hin Hd Ho. unfold apply_config. apply fold_override_keeps_none; [exact Ho|].
+  apply fold_deny_removes; assumption.
+Qed.
+
+(* ... hence for every option list, in any order: a global denied by SOME WithoutGlobal / WithoutGlobals option and
+   not overridden by a WithGlobalOverride option of the list is absent from the composed configuration *)
+Theorem composed_deny_wins : forall d opts x,
+  denied_by opts x -> has_dot x = false -> ~ overridden_by opts x ->
+  env_get (w_env (apply_config d (config_of opts))) x = None.
+Proof.
+  intros d opts x Hd Hn Ho. apply denied_global_absent; [apply config_of_denies; exact Hd|exact Hn|].
+  intros y v Hin Heq. subst y. apply Ho. exact (config_of_over opts x v Hin).
+Qed.
+
+(* ------------------------------------------------------------------ modules a host assembles from existing builtins *)
+
+Lemma reparent_key : forall n bs e, e_src (reparent n bs e) = e_src e /\ e_lbl (reparent n bs e) = e_lbl e.
+Proof. intros n bs e. unfold reparent. destruct (_ && _); simpl; auto. Qed.
+
+(* after NewBuiltinsModule(n, members) every builtin among the members answers __module__ with the NEW module *)
+Theorem assemble_backref : forall w n members a b old,
+  wf_world w = true -> In (a, b) members -> In (E b "__module__" false old) (w_heap w) ->
+  get_attr (w_heap (assemble w n members)) b "__module__" = Some n.
+Proof.
+  intros w n members a b old Hwf Hin He. destruct (wf_world_parts w Hwf) as [Hk _].
+  unfold assemble, get_attr. simpl.
+  assert (Hf : find (edge_at b "__module__") (map (reparent n (map snd members)) (w_heap w))
+               = Some (E b "__module__" false n)).
+  { rewrite find_map_key by (intro e; apply reparent_key).
+    rewrite (find_first_key (w_heap w) b "__module__" _ Hk He) by (unfold edge_at; simpl; rewrite Pos.eqb_refl; reflexivity).
+    simpl. unfold reparent. simpl.
+    assert (existsb (Pos.eqb b) (map snd members) = true) as ->; [|reflexivity].
+    apply existsb_exists. exists b. split; [|apply Pos.eqb_refl]. change b with (snd (a, b)). apply in_map. exact Hin. }
+  assert (Happ : forall (l1 l2 : list edge) x, find (edge_at b "__module__") l1 = Some x ->
+                   find (edge_at b "__module__") (l1 ++ l2) = Some x).
+  { induction l1 as [|y l1 IH]; intros l2 x Hx; simpl in *; [discriminate|].
+    destruct (edge_at b "__module__" y); auto. }
+  rewrite (Happ _ _ _ Hf). reflexivity.
+Qed.
+
+(* nothing else changes: an edge that is not the __module__ attribute of a member is in the new heap as it was *)
+Theorem assemble_keeps : forall w n members e,
+  In e (w_heap w) -> (e_lbl e <> "__module__" \/ e_mem e = true \/ ~ In (e_src e) (map snd members)) ->
+  In e (w_heap (assemble w n members)).
+Proof.
+  intros w n members e Hin Hc. unfold assemble. simpl. apply in_or_app. left.
+  assert (reparent n (map snd members) e = e) as <-; [|apply in_map; exact Hin].
+  unfold reparent. destruct Hc as [Hc|[Hc|Hc]].
+  - destruct (String.eqb (e_lbl e) "__module__") eqn:E; [apply String.eqb_eq in E; contradiction|reflexivity].
+  - rewrite Hc. simpl. rewrite andb_false_r. reflexivity.
+  - destruct (existsb (Pos.eqb (e_src e)) (map snd members)) eqn:E; [|rewrite andb_false_r; reflexivity].
+    exfalso. apply Hc. apply existsb_exists in E. destruct E as [z [Hz Hez]]. apply Pos.eqb_eq in Hez. subst z. exact Hz.
+Qed.
+
+Lemma check_assemble_sound : forall w n keep x m, check_assemble w n keep x = true ->
+  env_get (w_env w) x = Some m -> is_module (w_mods w) m = true ->
+  ~ Access (apply_config (restricted w n m keep) (override1 x n)) m /\
+  ~ Access (apply_config (restricted w n m keep) (beside x n)) m.
+Proof.
+  intros w n keep x m H He Hm. unfold check_assemble in H. rewrite He, Hm in H.
+  destruct (world_reach (apply_config (restricted w n m keep) (override1 x n))) as [s1|] eqn:H1; [|discriminate].
+  destruct (world_reach (apply_config (restricted w n m keep) (beside x n))) as [s2|] eqn:H2; [|discriminate].
+  apply andb_true_iff in H. destruct H as [H _]. apply andb_true_iff in H. destruct H as [H _].
+  apply andb_true_iff in H. destruct H as [Ha Hb]. apply negb_true_iff in Ha, Hb.
+  split; intro Hacc.
+  - apply (world_reach_spec _ _ H1) in Hacc. apply PS.mem_spec in Hacc. congruence.
+  - apply (world_reach_spec _ _ H2) in Hacc. apply PS.mem_spec in Hacc. congruence.
+Qed.
+
+Theorem assembled_from_check : forall w n keep,
+  forallb (check_assemble w n keep) (map fst (w_env w)) = true ->
+  forall x m, In (x, m) (w_env w) -> env_get (w_env w) x = Some m -> is_module (w_mods w) m = true ->
+  ~ Access (apply_config (restricted w n m keep) (override1 x n)) m /\
+  ~ Access (apply_config (restricted w n m keep) (beside x n)) m.
+Proof.
+  intros w n keep H x m Hin He Hm. apply check_assemble_sound; [|exact He|exact Hm].
+  apply (proj1 (forallb_forall _ _) H). change x with (fst (x, m)). apply in_map. exact Hin.
+Qed.
